@@ -7,6 +7,8 @@ HISTORY-level theorems, i.e. invariants over every state reachable in the transi
 import FurikoModel.Proofs.JobCtlInvExamples
 import FurikoModel.Proofs.JobCtlInvNames
 import FurikoModel.Proofs.JobCtlPlanPass
+import FurikoModel.Proofs.JobCtlPlanListed
+import FurikoModel.Generated.Facts
 import FurikoModel.Props.C09
 import FurikoModel.Props.C11
 
@@ -466,5 +468,157 @@ theorem finished_ref_justified_partial (s : Sys) (jo : JobObj) (rj : Job) (r : T
 example : ∃ r ∈ (updateJobTaskRefs Ex.sA.clock (Ex.cachedOf Ex.sA).job
     (tasksForRefs Ex.sA (Ex.cachedOf Ex.sA) (Ex.cachedOf Ex.sA).job.status.tasks)).status.tasks, r.finishTimestamp = none :=
   ⟨_, List.mem_cons_self, by decide +kernel⟩
+
+/-! ### `created_stays_listed` (repair of F31)
+
+C09: "every task the Job ever created stays listed in its status with its last known state even after the
+task object is gone".  `refs_monotone` is about names that WERE recorded; this section is about getting
+recorded.  Before the repair `Reconciler.SyncOne` called `UpdateJob` and then `UpdateJobStatus` with the
+object it had read from the cache: whenever one pass changed both the metadata and the status, its status
+write carried the resourceVersion its own `Update` had just made stale and was refused as a Conflict, with
+no fault injected — a pass that created a task, marked the admission error (annotation) and swept the task
+again lost the one status that listed it (F31).  Now `ExecutionControl.UpdateJobAndStatus` submits the
+status on top of the object `Update` returned (`Model/JobCtl.lean`: `statusBase`, `updatedRv`). -/
+
+/-- tie to the source (regenerated from the source on every run, section `jobctl-status-write` of
+`harness/cmd/extract/jobctl_writes.go`): `Reconciler.SyncOne` issues its writes through one call
+`w.client.UpdateJobAndStatus(ctx, rj, newRj)`, and that function passes the resourceVersion of the object
+`updateJob` returned — the one `c.client.Jobs(…).Update` returned — to `UpdateJobStatus`
+(`Model/JobCtl.syncOne`, `statusBase`).  Reverting the repair makes this theorem false. -/
+theorem source_writes_status_on_updated_object : Facts.syncOneWritesStatusOnUpdatedObject = true := by decide
+
+/-- the state `SyncOne` runs in when `work` has popped a key: key popped, call log reset -/
+def passState (s : Sys) (q1 : Furiko.WQ.WQ) : Sys := { s with q := q1, calls := [], delRun := none }
+
+theorem work_objects (s : Sys) (k : String) (q1 : Furiko.WQ.WQ) (hg : (s.q.advance s.clock).get = some (k, q1)) :
+    (work s).1.job = (syncOne (passState s q1)).1.job ∧ (work s).1.pods = (syncOne (passState s q1)).1.pods := by
+  unfold JobCtl.work
+  simp only [hg]
+  exact ⟨rfl, rfl⟩
+
+/-- the two Job writes of `SyncOne` leave the pods alone -/
+theorem syncOne_pods_eq (s : Sys) (jo : JobObj) (hc : s.jobCache = some jo) :
+    (syncOne s).1.pods = (sync s jo).1.pods := by
+  unfold syncOne
+  simp only [hc]
+  generalize sync s jo = r1
+  obtain ⟨s1, newJob, newFin, syncOk, nullTime⟩ := r1
+  simp only
+  have h2 : (if (newJob.admissionError ≠ jo.job.admissionError || newFin ≠ jo.finalizer) = true then
+        apiUpdateJob s1 jo { jo with job := newJob, finalizer := newFin } else (s1, true)).1.pods = s1.pods := by
+    split
+    · rw [apiUpdateJob_pods]
+    · rfl
+  generalize (if (newJob.admissionError ≠ jo.job.admissionError || newFin ≠ jo.finalizer) = true then
+        apiUpdateJob s1 jo { jo with job := newJob, finalizer := newFin } else (s1, true)) = r2 at h2 ⊢
+  obtain ⟨s2, ok1⟩ := r2
+  simp only at h2 ⊢
+  cases ok1 with
+  | false => simp only [Bool.not_false, ↓reduceIte]; exact h2
+  | true =>
+    simp only [Bool.not_true, Bool.false_eq_true, ↓reduceIte]
+    have h3 : (if (decide (newJob.status ≠ jo.job.status) || nullTime) = true then
+        apiUpdateJobStatus s2 (statusBase s2 jo (newJob.admissionError ≠ jo.job.admissionError || newFin ≠ jo.finalizer))
+          { jo with job := newJob } else (s2, true)).1.pods = s1.pods := by
+      split
+      · rw [apiUpdateJobStatus_pods]; exact h2
+      · exact h2
+    generalize (if (decide (newJob.status ≠ jo.job.status) || nullTime) = true then
+        apiUpdateJobStatus s2 (statusBase s2 jo (newJob.admissionError ≠ jo.job.admissionError || newFin ≠ jo.finalizer))
+          { jo with job := newJob } else (s2, true)) = r3 at h3 ⊢
+    obtain ⟨s3, ok2⟩ := r3
+    simp only at h3 ⊢
+    cases ok2 <;> exact h3
+
+/-- **`created_stays_listed`** (every reachable state, ALL actions allowed; pass level).  A controller pass
+(`work` popping a key, cached Job `jo`) such that
+* `Reconciler.sync` returns without error (`hok`),
+* no fault is injected into the two writes that follow (`hnf`: the fault oracle is empty when `sync` is
+  done — whatever faults hit the calls of `sync` itself), and
+* the cached Job is up to date when the pass comes to write (`hcur`: the stored object carries the
+  resourceVersion of the cached one — no concurrent writer, no TTL deletion in this pass)
+leaves — unless it completed the deletion of the Job (finalizer dropped: the object is gone) — an
+authoritative Job that carries EXACTLY THE STATUS AND THE ADMISSION-ERROR ANNOTATION `sync` computed,
+also when both changed in this pass, and in which every pod of the server is accounted for: **every pod
+name on the server after the pass either was there before the pass or is listed in `status.tasks`**, i.e.
+every pod the pass created is recorded by the pass itself — in particular the pod that the same pass
+swept again because another index ran into an admission error (F31; graceful deletion keeps the object,
+its removal is a step of its own).  Before the repair the conclusion failed for every pass that changed
+both metadata and status (`C09Side.created_task_listed_regression` is the former counterexample).
+Not claimed: a pass whose `sync` fails midway (a later create answered `AlreadyExists` for a pod the pod
+cache does not hold yet, a faulted call) records nothing; the pod it created is then re-discovered by name
+(`unrecorded_pod_never_duplicated`, `C09.adopt_not_duplicate`). -/
+theorem created_stays_listed {ok : Sys → Action → Prop} {j0 : JobObj} {s : Sys} (hr : Reach ok j0 s)
+    (k : String) (q1 : Furiko.WQ.WQ) (hg : (s.q.advance s.clock).get = some (k, q1)) (jo : JobObj) (hc : s.jobCache = some jo)
+    (hok : (sync (passState s q1) jo).2.2.2.1 = true)
+    (hnf : (sync (passState s q1) jo).1.faults = [])
+    (hcur : ∃ cur, (sync (passState s q1) jo).1.job = some cur ∧ cur.rv = jo.rv) :
+    ((work s).1.job = none ∧ jo.job.deletionTimestamp.isSome = true) ∨
+    ∃ j', (work s).1.job = some j' ∧
+      j'.job.status = (sync (passState s q1) jo).2.1.status ∧
+      j'.job.admissionError = (sync (passState s q1) jo).2.1.admissionError ∧
+      ∀ n ∈ podNames (work s).1.pods, n ∈ podNames s.pods ∨ n ∈ refNames j'.job := by
+  have hb : Base j0 (passState s q1) :=
+    (base_of_reach hr).frame ⟨⟨rfl, rfl, rfl, rfl, rfl⟩, rfl, rfl, rfl, rfl, rfl⟩
+  have hcp : (passState s q1).jobCache = some jo := hc
+  obtain ⟨cur, hcj, hrv⟩ := hcur
+  have hcur' : (sync (passState s q1) jo).1.job = some jo := by
+    rw [hcj, cachedIsCur_sync hb hcp cur hcj hrv]
+  obtain ⟨hwj, hwp⟩ := work_objects s k q1 hg
+  have hlist := sync_lists_created (passState s q1) jo hok
+  rcases syncOne_writes (passState s q1) jo hcp hnf hcur' with ⟨hgone, hdel, _⟩ | ⟨_, j', hj', hst, hadm, _⟩
+  · exact Or.inl ⟨hwj.trans hgone, hdel⟩
+  · refine Or.inr ⟨j', hwj.trans hj', hst, hadm, ?_⟩
+    intro n hn
+    rw [hwp, syncOne_pods_eq _ jo hcp] at hn
+    rcases hlist n hn with h | h
+    · exact Or.inl h
+    · right
+      unfold refNames at h ⊢
+      rw [hst]; exact h
+
+/-- **… and stays listed** (history level): after such a pass, along every continuation of the history —
+any actions, any faults, restarts, the pod object vanishing — every pod name that was on the server
+right after the pass and had not been there before it is listed in `status.tasks` of the authoritative
+Job for as long as the Job object exists (`created_stays_listed` + `refs_monotone`). -/
+theorem created_stays_listed_later {ok : Sys → Action → Prop} {j0 : JobObj} {s s' : Sys} (hr : Reach ok j0 s)
+    (hokw : ok s .work)
+    (k : String) (q1 : Furiko.WQ.WQ) (hg : (s.q.advance s.clock).get = some (k, q1)) (jo : JobObj) (hc : s.jobCache = some jo)
+    (hok : (sync (passState s q1) jo).2.2.2.1 = true)
+    (hnf : (sync (passState s q1) jo).1.faults = [])
+    (hcur : ∃ cur, (sync (passState s q1) jo).1.job = some cur ∧ cur.rv = jo.rv)
+    (hs : Steps ok j0 (step s .work) s') (j'' : JobObj) (hj'' : s'.job = some j'') :
+    ∀ n ∈ podNames (step s .work).pods, n ∈ podNames s.pods ∨ n ∈ refNames j''.job := by
+  have hr1 : Reach ok j0 (step s .work) := .step .work hr hokw trivial
+  rcases created_stays_listed hr k q1 hg jo hc hok hnf hcur with ⟨hgone, _⟩ | ⟨j', hj', _, _, hl⟩
+  · -- the Job object is gone, and never reappears
+    exfalso
+    have hnone : ∀ {t : Sys}, Steps ok j0 (step s .work) t → t.job = none := by
+      intro t ht
+      induction ht with
+      | refl => exact hgone
+      | step a hs' _ hal ih => exact step_job_none (hr1.steps hs') a hal ih
+    rw [hnone hs] at hj''; cases hj''
+  · intro n hn
+    rcases hl n hn with h | h
+    · exact Or.inl h
+    · exact Or.inr (refs_monotone hr1 hs j' j'' hj' hj'' n h)
+
+/-- non-vacuity: the first pass of the example history creates `job-h-0` — the premises hold, the name is
+new, and it is listed after the pass -/
+example :
+    (match ((step Ex.s0 .deliverJob).q.advance (step Ex.s0 .deliverJob).clock).get with
+      | some (_, q1) =>
+        decide ((sync (passState (step Ex.s0 .deliverJob) q1) (Ex.cachedOf (step Ex.s0 .deliverJob))).2.2.2.1 = true) &&
+        decide ((sync (passState (step Ex.s0 .deliverJob) q1) (Ex.cachedOf (step Ex.s0 .deliverJob))).1.faults = []) &&
+        decide (((sync (passState (step Ex.s0 .deliverJob) q1) (Ex.cachedOf (step Ex.s0 .deliverJob))).1.job.map (·.rv)) =
+          some (Ex.cachedOf (step Ex.s0 .deliverJob)).rv)
+      | none => false) = true ∧
+    (step Ex.s0 .deliverJob).jobCache = some (Ex.cachedOf (step Ex.s0 .deliverJob)) ∧
+    podNames (step Ex.s0 .deliverJob).pods = [] ∧
+    podNames (step (step Ex.s0 .deliverJob) .work).pods = ["job-h-0"] ∧
+    (step (step Ex.s0 .deliverJob) .work).job.map (fun j => refNames j.job) = some ["job-h-0"] :=
+  ⟨by decide +kernel, by decide +kernel, by decide +kernel, by decide +kernel, by decide +kernel⟩
+
 
 end Furiko.Props.C09Hist
